@@ -67,13 +67,15 @@ def run(ctx):
                 "compiler (auto withdraw_gas on, experimental features on, starknet + assert plugins); every function of the crate "
                 "whose user parameters are scalars/tuples/arrays of integers; argument vectors all-min, all-max, zero/one, seeded "
                 "mixes with near-boundary values; gas budgets entry cost -1/+0/+1/+100/+3000, 0, exact consumption -1/+0/+1, entry "
-                "cost + 10^7; both metadata configurations. evaluations = VM runs; distinct_nontrivial = number of distinct "
+                "cost + 10^7; both metadata configurations; plus seeded single-point mutants of the compiled programs that the real "
+                "pipeline accepts (function table unchanged), run the same way. evaluations = VM runs; distinct_nontrivial = number of distinct "
                 "program-counter traces (hash of the relocated trace's pcs inside the program) among the completed runs.",
         "input_distribution": {k: v for k, v in s.items() if k != "configs_refused"},
         "sources": res["sources"],
         "not_compiled_sources": len(res["not_compiled"]),
         "metadata_configs_refused": s.get("configs_refused", [])[:12],
         "traces_validated_against_impl": s.get("runs_ok", 0),
+        "accepted_mutants_run": s.get("mutants_accepted", 0),
         "c02_failures": len(bad),
         "samples": res["samples"] or ["(harness did not run)"],
     })
